@@ -1404,6 +1404,9 @@ def abstract(name, *args, lo=None, hi=None):
 # ----------------------------------------------------------------------------------------------
 # SymInt
 # ----------------------------------------------------------------------------------------------
+INDEX_SPAN = 16
+
+
 class SymInt:
     __hash__ = None
 
@@ -1492,7 +1495,16 @@ class SymInt:
         return bool(self != 0)
 
     def __index__(self):
-        raise Unsupported("index() of a symbolic int")
+        # a slice bound, a range() limit, a list index: the value is needed concretely, so the path forks over the small
+        # values (0, 1, -1, 2, -2, ... +-INDEX_SPAN); a symbolic int that can be larger on some path is refused there
+        c = z3.simplify(self.i)
+        if z3.is_int_value(c):
+            return c.as_long()
+        for k in range(0, INDEX_SPAN + 1):
+            for v in ((k, -k) if k else (0,)):
+                if bool(SymBool(self.i == v)):
+                    return v
+        raise Unsupported("index() of a symbolic int outside the enumerated span")
 
     def __int__(self):
         raise Unsupported("int() of a symbolic int")
